@@ -20,8 +20,7 @@ fn c17_bootstrap_addr_update_status_never_overflows() {
         assert!(a.failure_count == before.1 + 1 && a.success_count == before.0);
     }
     let _ = a.is_reliable();
-    let r = a.failure_rate();
-    assert!(r >= 0.0 && r <= 1.0, "failure rate outside [0, 1]");
+    assert!(a.failure_rate().in_range(), "failure rate outside its range");
     kani::cover!(before.0 == u32::MAX && ok, "success counter at its maximum");
 }
 
@@ -31,15 +30,40 @@ fn c17_bootstrap_addr_sync_never_overflows() {
     let mut a = any_addr();
     let b = any_addr();
     a.sync(&b);
-    let r = a.failure_rate();
-    assert!(r >= 0.0 && r <= 1.0, "failure rate outside [0, 1]");
+    assert!(a.failure_rate().in_range(), "failure rate outside its range");
     kani::cover!(b.success_count == u32::MAX, "other side saturated");
 }
 
 #[kani::proof]
 fn c17_bootstrap_addr_failure_rate_never_overflows() {
     let a = any_addr();
-    let r = a.failure_rate();
-    assert!(r >= 0.0 && r <= 1.0, "failure rate outside [0, 1]");
+    assert!(a.failure_rate().in_range(), "failure rate outside its range");
     kani::cover!(a.success_count > u32::MAX / 2 && a.failure_count > u32::MAX / 2, "sum exceeds u32");
+}
+
+
+/// the rate's value range, whatever numeric type the function returns it in (a fraction in [0, 1], or an integer
+/// number of percent / basis points): what C17 decides is that computing it never panics or overflows
+trait RateRange {
+    fn in_range(self) -> bool;
+}
+impl RateRange for f64 {
+    fn in_range(self) -> bool {
+        self >= 0.0 && self <= 1.0
+    }
+}
+impl RateRange for f32 {
+    fn in_range(self) -> bool {
+        self >= 0.0 && self <= 1.0
+    }
+}
+impl RateRange for u64 {
+    fn in_range(self) -> bool {
+        self <= 10_000
+    }
+}
+impl RateRange for u32 {
+    fn in_range(self) -> bool {
+        self <= 10_000
+    }
 }
